@@ -1,6 +1,6 @@
 """C06 - integer arithmetic: representation independence of the NInt layer (static clauses)."""
 import re
-from .core import (CheckError, find_match, arm_region, pat_str, strip_ref, origins, only_when,
+from .core import (param_sources, CheckError, find_match, arm_region, pat_str, strip_ref, origins, only_when,
                    pat_paths, Registry, pat_subsumes, op_local)
 
 META = {
@@ -533,6 +533,25 @@ def run(F, rep, tier):
             rep.ok('R6.7', fn, 'shifts the BigInt')
         else:
             rep.viol('R6.7', fn + '|machine-shift', 'shift has a machine-word path (%s %s): bits shifted out of an i64 are lost silently' % (other, ['bin ' + s[2][1] for s in shifts]), b.loc(0))
+    # ---------------- R6.9
+    rep.rule('R6.9', 'the big fallback of every binary operator impl on NInt keeps the operand roles: the left operand of the BigInt-level '
+             'operation comes from self, the right one from the other parameter (parameter-source dataflow, field-sensitive through '
+             '`match (self, other)`) - for - / // % & the exchanged form is wrong exactly off the machine-word fast path', exhaustive=True)
+    n69 = 0
+    for p_ in sorted(F.bodies_raw):
+        m_ = re.match(r'^<&?nint::NInt as std::ops::(Sub|Div|Rem|Add|Mul|BitAnd|BitOr|BitXor)(<.*>)?>::(\w+)$', p_)
+        if not m_:
+            continue
+        b_ = F.body(p_)
+        for c in b_.calls:
+            if c.callee.get('tr') == 'std::ops::' + m_.group(1) and 'BigInt' in c.target and len(c.args) >= 2:
+                n69 += 1
+                l_, r_ = param_sources(b_, c.args[0]), param_sources(b_, c.args[1])
+                if l_ == {1} and r_ == {2}:
+                    rep.ok('R6.9', '%s big %s' % (p_, m_.group(1)), 'self op other')
+                else:
+                    rep.viol('R6.9', '%s|operand-roles' % p_, 'the BigInt fallback of %s computes with operands from parameters %s and %s (expected self, other): `a - b`, `a // b`, `a %% b` are reversed as soon as a value leaves the i64 range' % (p_, sorted(l_), sorted(r_)), c.loc())
+    rep.floor('R6.9', 'BigInt-level operations in the NInt operator impls', n69, 40)
     # ---------------- R6.8
     rep.rule('R6.8', 'the truncating remainder (Rem on NNum / NInt / BigInt / signed machine integers: sign follows the dividend) is used outside '
              'the operator implementations only at reviewed sites where the sign cannot matter; everything else in the library that means '
